@@ -1,5 +1,6 @@
 #!/bin/bash
 # seedbatch.sh C01 C03 ...  : evaluates /tmp/seed-<ID>/patch{1,2}.diff, results in /tmp/mut/results/
+export MUT_DIR="${MUT_DIR:-/tmp/mut}"
 mkdir -p /tmp/mut/results
 for id in "$@"; do
   for n in 1 2; do
